@@ -7,7 +7,7 @@ OutputWhereAsked) and enumerates the space completely; every shape is replayed a
 executables built from the working tree in a fresh directory, and the observation (status, stderr,
 files created / modified, target content) is validated by TLC with ToolRun!Conforms.
 """
-import os, json, shutil, subprocess, hashlib
+import os, json, shutil, subprocess, hashlib, tempfile
 import vlib, corpus
 
 PID = "C14"
@@ -94,6 +94,14 @@ def run_shape(tdir, work, inv, k, rep=0):
         ref = open(rb, "rb").read() if os.path.exists(rb) else None
     if inv.get("via") == "fileread" and inv["xv"] > 0:
         open(os.path.join(d, "simin1"), "wb").write(bytes((65 + i) % 250 for i in range(inv["xv"])))
+    extra_env = None; elsewhere = None
+    if inv["pre"] in ("tmpelsewhere", "otherfs"):
+        shm = "/dev/shm"
+        if not (os.path.isdir(shm) and os.access(shm, os.W_OK) and os.stat(shm).st_dev != os.stat(d).st_dev):
+            return None                      # no second file system at hand: the shape cannot be exercised here
+        elsewhere = tempfile.mkdtemp(prefix="verif-c14-", dir=shm)
+        if inv["pre"] == "tmpelsewhere":
+            extra_env = dict(os.environ, TMPDIR=elsewhere, TMP=elsewhere, TEMP=elsewhere)
     if inv["pre"] == "nodir":
         target = "no/such/dir/out.bin"
     elif inv["pre"] == "devfull":
@@ -108,12 +116,14 @@ def run_shape(tdir, work, inv, k, rep=0):
         fifo = os.open(os.path.join(d, target), os.O_RDWR | os.O_NONBLOCK)      # keeps a reader (and a writer) on the pipe: the tool never blocks
     before = snapshot(d)
     argv = [os.path.join(tdir, tool)]
+    if inv["pre"] == "otherfs":
+        target = os.path.join(elsewhere, "out.bin")
     o = [inv["opt"], target] if inv["opt"] != "none" else []
     if tool in ("xrun", "hexsim") and inv["opt"] != "none":
         o = [inv["opt"]] + (["100000000"] if inv["opt"] == "--max-cycles" else [])
     argv += (o + [srcname]) if inv["pos"] == "before" else ([srcname] + o)
     try:
-        p = subprocess.run(argv, cwd=d, input=stdin_of(inv), stdout=subprocess.PIPE, stderr=subprocess.PIPE, timeout=60)
+        p = subprocess.run(argv, cwd=d, input=stdin_of(inv), stdout=subprocess.PIPE, stderr=subprocess.PIPE, timeout=60, env=extra_env)
         status = p.returncode if p.returncode >= 0 else 1000 - p.returncode
         stderr = len(p.stderr) > 0
     except subprocess.TimeoutExpired:
@@ -136,6 +146,16 @@ def run_shape(tdir, work, inv, k, rep=0):
     targetok = False
     if target and target in after and ref is not None:
         targetok = open(os.path.join(d, target), "rb").read() == ref
+    if inv["pre"] == "otherfs":
+        # the target lives outside the working directory: report it under the name ToolRun knows
+        if os.path.exists(target):
+            created = created + ["out.bin"]
+            targetok = ref is not None and open(target, "rb").read() == ref
+    if elsewhere:
+        leftovers = [f for f in os.listdir(elsewhere) if not (inv["pre"] == "otherfs" and f == "out.bin")]
+        if leftovers:
+            modified = modified + ["(scratch files left behind: %s)" % leftovers[0]]
+        shutil.rmtree(elsewhere, ignore_errors=True)
     if delivered is not None:
         targetok = ref is not None and delivered == ref
         if inv["src"] != "accepted" and delivered:
@@ -209,6 +229,8 @@ def run(tier, replay=None):
         for k, inv in enumerate(shapes):
             for rep in range(nreps(inv)):
                 obs = run_shape(tdir, d, inv, k, rep)
+                if obs is None:
+                    continue
                 recs.append({"id": len(recs), "inv": inv, "rep": rep, "obs": {x: obs[x] for x in ("status", "stderr", "created", "modified", "targetok")}, "argv": obs["argv"]})
         can = json.loads(json.dumps(recs[0])); can["id"] = -1; can["obs"]["status"] = 3
         rf = os.path.join(d, "recs.ndjson"); vlib.write_ndjson(rf, recs + [can])
